@@ -370,11 +370,12 @@ def get_field_types(type_: type[DataclassInstance]) -> dict[Field, Any]:
     This recursively function unwraps NewType to the underlying type.
     """
     ret: dict[Field, Any] = {}
+    # Resolve every annotation, not only the ones that are strings as a whole:
+    # forward references may be nested, e.g. `tuple["Node", ...]` or `Optional["Node"]`
+    hints = get_type_hints(type_)
 
     for field in fields(type_):
-        f_type = field.type
-        if isinstance(f_type, str):
-            f_type = get_type_hints(type_).get(field.name)
+        f_type = hints.get(field.name)
 
         if f_type is None and field.type is None:
             # Plain `None` annotation is the same as NoneType
